@@ -32,6 +32,18 @@ Definition ceil_div (a b : N) : N := (a + b - 1) / b.
 (* TensorBase.nbytes = math.ceil(itemsize * size), itemsize = bitwidth / 8 (exact for size < 2^50) *)
 Definition nbytes_bw (bw size : N) : N := ceil_div (size * bw) itemsize_divisor.
 
+(* What the code computes: `math.ceil(self.dtype.itemsize * self.size)` in float64.  itemsize = bitwidth/8 is a
+   power of two, so the only rounding is the int -> float conversion of `size` (nearest, ties to even, 53
+   significant bits); the product and the ceiling are then exact. *)
+Definition rne53 (n : N) : N :=
+  if n <? 2 ^ 53 then n
+  else let e := N.log2 n - 52 in
+       let q := N.shiftr n e in
+       let r := n - N.shiftl q e in
+       let half := 2 ^ (e - 1) in
+       if (half <? r) || ((r =? half) && N.odd q) then N.shiftl (q + 1) e else N.shiftl q e.
+Definition nbytes_code (bw size : N) : N := ceil_div (rne53 size * bw) itemsize_divisor.
+
 Definition shape_size (shape : list N) : N := fold_right N.mul 1 shape.
 Definition nsize (shape : list N) : nat := N.to_nat (shape_size shape).
 
@@ -79,12 +91,12 @@ Fixpoint pack4_pairs (l : list N) : list N :=
   | _ => []
   end.
 
-Definition pack_4bitx2 (store : list N) : list N :=
+Definition pack_4bitx2_hand (store : list N) : list N :=
   let size := length store in
   let flat := if Nat.odd size then resize (S size) store else store in
   pack4_pairs (map (fun x => N.land x 15) flat).
 
-Definition unpack_4bitx2 (data : list N) (n : nat) : list N :=
+Definition unpack_4bitx2_hand (data : list N) (n : nat) : list N :=
   let result := flat_map (fun d => [N.land d 15; N.shiftr (N.land d 240) 4]) data in
   let result := if Nat.eqb (length result) (S n) then removelast result else result in
   resize n result.
@@ -96,17 +108,25 @@ Fixpoint pack2_quads (l : list N) : list N :=
   | _ => []
   end.
 
-Definition pack_2bitx4 (store : list N) : list N :=
+Definition pack_2bitx4_hand (store : list N) : list N :=
   let size := length store in
   let padding := ((4 - size mod 4) mod 4)%nat in
   let flat := if Nat.ltb 0 padding then resize (size + padding) store else store in
   pack2_quads (map (fun x => N.land x 3) flat).
 
-Definition unpack_2bitx4 (data : list N) (n : nat) : list N :=
+Definition unpack_2bitx4_hand (data : list N) (n : nat) : list N :=
   let result := flat_map (fun d => [N.land d 3; N.shiftr (N.land d 12) 2;
                                     N.shiftr (N.land d 48) 4; N.shiftr (N.land d 192) 6]) data in
   let result := if Nat.ltb n (length result) then firstn n result else result in
   resize n result.
+
+(* The functions the rest of the model uses are the TRANSLATED ones (Gen/C04Gen.v, regenerated from
+   _type_casting.py on every run); the `_hand` versions above are the readable pair/quad-recursion forms that
+   ProofsTc.v proves equal to them for every input. *)
+Definition pack_4bitx2 := tc_pack_4bitx2.
+Definition unpack_4bitx2 := tc_unpack_4bitx2.
+Definition pack_2bitx4 := tc_pack_2bitx4.
+Definition unpack_2bitx4 := tc_unpack_2bitx4.
 
 (* ------------------------------------------------------------------ specification encoding *)
 
@@ -180,7 +200,7 @@ Fixpoint r_shape (r : rep) : list N :=
 
 Definition r_nbytes (r : rep) : res N :=
   match bitwidth (r_dtype r) with
-  | Some bw => Ok (nbytes_bw bw (shape_size (r_shape r)))
+  | Some bw => Ok (nbytes_code bw (shape_size (r_shape r)))
   | None => Raise TypeError
   end.
 
@@ -303,7 +323,7 @@ Definition array_tobytes (dt : N) (store : list N) : res (list N) :=
 Definition packed_raw (dt : N) (shape raw : list N) : res (list N) :=
   match bitwidth dt with
   | None => Raise TypeError
-  | Some bw => if N.of_nat (length raw) =? nbytes_bw bw (shape_size shape) then Ok raw else Raise ValueError
+  | Some bw => if N.of_nat (length raw) =? nbytes_code bw (shape_size shape) then Ok raw else Raise ValueError
   end.
 
 Definition packed_numpy (dt : N) (shape raw : list N) : res (list N) :=
@@ -328,7 +348,7 @@ Definition ext_load (dt : N) (shape file : list N) (offset : option N) : res (li
       if Nat.eqb (length file) 0 then Raise ValueError else
       let off := N.to_nat (or0 offset) in
       let itemsize := if memN dt set_ext_subbyte then 1%nat else Nat.max 1 (itemsize_of bw) in
-      let count := if memN dt set_ext_subbyte then N.to_nat (nbytes_bw bw (shape_size shape)) else n in
+      let count := if memN dt set_ext_subbyte then N.to_nat (nbytes_code bw (shape_size shape)) else n in
       if Nat.ltb (length file) off then Raise ValueError else
       if Nat.ltb (length file - off) (count * itemsize) then Raise ValueError else
       let arr := decode_elems itemsize (firstn (count * itemsize) (skipn off file)) in
@@ -344,7 +364,7 @@ Definition ext_tobytes (dt : N) (shape file : list N) (offset length : option N)
       if Nat.eqb (nsize shape) 0 then Ok [] else
       res_bind (ext_load dt shape file offset) (fun _ =>
         let off := N.to_nat (or0 offset) in
-        let len := N.to_nat (or_else length (nbytes_bw bw (shape_size shape))) in
+        let len := N.to_nat (or_else length (nbytes_code bw (shape_size shape))) in
         Ok (firstn len (skipn off file)))
   end.
 
@@ -422,7 +442,7 @@ Definition ext_tofile (env : tofile_env) (dt : N) (shape file : list N) (offset 
   match bitwidth dt with
   | None => Raise TypeError
   | Some bw =>
-      let togo := or_else length (nbytes_bw bw (shape_size shape)) in
+      let togo := or_else length (nbytes_code bw (shape_size shape)) in
       let src := skipn (N.to_nat (or0 offset)) file in
       let '(src', togo', d') := kernel_phase (e_kernel env) (e_kmax env) src togo d in
       copy_loop (N.to_nat togo') (e_chunk env) src' togo' d'
@@ -499,7 +519,7 @@ Inductive represents (dt : N) (shape : list N) (xs : list N) : rep -> Prop :=
 
 (* the logical data itself is well formed *)
 Definition logical (dt : N) (shape : list N) (xs : list N) : Prop :=
-  exists bw, bitwidth dt = Some bw /\ in_range bw xs /\ length xs = nsize shape.
+  exists bw, bitwidth dt = Some bw /\ in_range bw xs /\ length xs = nsize shape /\ shape_size shape < 2 ^ 53.
 
 (* ------------------------------------------------------------------ string tensors *)
 
@@ -531,3 +551,11 @@ Definition s_string_data (r : srep) : list (list N) :=
   end.
 
 Definition s_nbytes (r : srep) : N := fold_right (fun s a => N.of_nat (length s) + a) 0 (s_string_data r).
+
+(* numpy() of string tensors after the proposed repair (proposed_fixes/C04-string-trailing-nul.diff): list- and
+   proto-backed tensors build an object array, which keeps every byte *)
+Definition s_numpy_fixed (r : srep) : list (list N) :=
+  match r with
+  | SList _ ss | SProto _ ss | SObjArray _ ss => ss
+  | SBytesArray _ ss => map np_bytes_elem ss
+  end.
